@@ -59,7 +59,15 @@ def signature(a, b, verdict):
              "pattern": "predicate-vs-matrix", "prepared-order-dependent": "prepared-order",
              "rectangle-variant": "rectangle", "xy-forms": "xy", "self-relations": "self",
              "equals-both-empty": "equals-both-empty"}.get(conj, conj)
+    mixed = False
+    if gc and not (gtok.gc_self_interaction(a) or gtok.gc_self_interaction(b)):
+        # the recorded collection defects (RelateNG's union semantics) need a collection whose elements share points; a collection of
+        # pairwise disjoint elements is keyed like a non-collection (mixed-dimension ones are marked: they have defects of their own)
+        gc = False
+        mixed = fa["mixedDim"] or fb["mixedDim"]
     sig = {"conjunct": group, "gc": gc}
+    if mixed:
+        sig["mixedDimCollection"] = True
     if gc:
         pass
     elif group == "self":
